@@ -2,7 +2,8 @@
    specification machine (Conc/Spec.v: sstep) over recorded traces.
    stdin: cases, each
      init S0 M0 T0 [unrepaired]
-     <one label per line>
+     <one label per line>          (or `reopen FID FSZ S0 M0 T0`: process exit + open on the same directory,
+                                    with the counters the new process reported)
      end
    stdout, one line per case:
      ACCEPT <n labels> vis=<..> seq=<..> memseq=<..> db=<number of committed batches>
@@ -143,6 +144,17 @@ let () =
               while true do
                 let l = String.trim (input_line stdin) in
                 if l = "end" then raise Exit;
+                if l <> "" && !verdict = None && String.length l > 7 && String.sub l 0 7 = "reopen " then begin
+                  (* process exit + open on the same directory: reopen FID FSZ S0 M0 T0 *)
+                  (match String.split_on_char ' ' l |> List.filter (fun x -> x <> "") with
+                   | [_; fid; fsz; s0; m0; t0] ->
+                       let f x = n_of_int (int_of_string x) in
+                       (match reopen !st (f fid) (f fsz) (f s0) (f m0) (f t0) with
+                        | None -> verdict := Some (Printf.sprintf "REJECT %d %s" !idx l)
+                        | Some st' -> st := st'; sp := sreopen !sp)
+                   | _ -> failwith ("bad reopen: " ^ l));
+                  incr idx
+                end else
                 if l <> "" && !verdict = None then begin
                   let (l, asserts) = split_asserts l in
                   let rec attempt = function
